@@ -267,7 +267,26 @@ StringDictionary *StringDictionaryXBW::load(std::istream &in) {
   dict->elements = loadValue<uint64_t>(in);
   dict->maxlength = loadValue<uint32_t>(in);
 
-  dict->xbw = new XBW(in);
+  // The arrays of the image are kept, as in a built dictionary: save() writes
+  // them
+  in.read((char *)&(dict->len), sizeof(uint));
+  uint len = dict->len;
+  dict->mapping = new uint[257];
+  in.read((char *)dict->mapping, 257 * sizeof(uint));
+  dict->alpha = new uint[len];
+  in.read((char *)dict->alpha, len * sizeof(uint));
+  dict->last = new uint[len / W + 1];
+  in.read((char *)dict->last, (len / W + 1) * sizeof(uint));
+  dict->A = new uint[len / W + 2];
+  in.read((char *)dict->A, (len / W + 2) * sizeof(uint));
+
+  std::stringstream arrays;
+  arrays.write((char *)&len, sizeof(uint));
+  arrays.write((char *)dict->mapping, 257 * sizeof(uint));
+  arrays.write((char *)dict->alpha, len * sizeof(uint));
+  arrays.write((char *)dict->last, (len / W + 1) * sizeof(uint));
+  arrays.write((char *)dict->A, (len / W + 2) * sizeof(uint));
+  dict->xbw = new XBW(arrays);
 
   return dict;
 }
